@@ -33,6 +33,9 @@ func checkC11(c *Ctx) {
 	c.servicesWriteRebuilds("R11.8 derived-table-rebuilt-on-every-change")
 	// a restored balancer refreshes its rotation like a deployed one: nothing but the refresh writes it (shared with C09)
 	rRotationOnlyRefreshed(c, "R11.9 rotation-written-only-by-the-refresh")
+	// what a deploy writes into a live service's slot is either installed (and saved) or taken back: a failing deploy that
+	// leaves anything else in the slot changes the running configuration without a snapshot (shared with C01)
+	r011(c, "R11.10 slot-writes-installed-or-undone")
 }
 
 var serviceFieldClass = map[string]string{
